@@ -120,7 +120,12 @@ def execute(mat, ctx):
         with warnings.catch_warnings():
             warnings.simplefilter("ignore")
             try:
-                V(rcs[0]).assemble(*[M(r) for r in rcs[1:]])
+                prod = V(rcs[0]).assemble(*[M(r) for r in rcs[1:]])
+                # the product (provenance features, inherited features) reverse-complemented, rotated, and back
+                prc = prod.reverse_complement()
+                (prod >> (len(prod) // 3)).reverse_complement()
+                prc.reverse_complement()
+                ctx.count("embedded_products_reverse_complemented")
             except Exception:
                 pass
         if any(s["features"] for s in [mat["vector"]] + mat["modules"]):
